@@ -3,6 +3,7 @@ package main
 // C19 — Server is stateless before a valid cookie and silent in hidden mode.
 
 import (
+	"go/ast"
 	"fmt"
 	"go/token"
 	"go/types"
@@ -693,8 +694,121 @@ func c19HiddenReader(c *Ctx) {
 			fs.add("timestamp", "a hidden request is accepted on a path that does not require now - timestamp <= HiddenModeTimestampExpiration (stale requests would be answered)", p.Exit(), p)
 		}
 	})
+	// the window is in the unit of the timestamps (Unix seconds)
+	for _, f := range []*ssa.Function{fn, P.Func("transport", "(*Server).readClientRequestHidden")} {
+		if f == nil {
+			continue
+		}
+		at := unitMismatch(P, f)
+		c.Check(at == "", "C19.R4", FuncName(f)+"#timestamp-unit", P.Pos(f.Pos()), "no seconds-against-nanoseconds comparison",
+			"an age in Unix seconds is compared with a time.Duration converted to an integer (nanoseconds) at "+at+": the staleness bound is a billion times too wide, so a captured hidden request is answered whenever it is replayed")
+	}
 	if ok {
 		fs.report(c, "C19.R4", name, []string{"timestamp"}, P.Pos(fn.Pos()), fmt.Sprintf("timestamp window required on all %d success paths", succ))
 		c.Floor("C19.R4", "success paths of readPQClientRequestHidden", succ, 1)
 	}
+}
+
+// unitMismatch looks, in the source of fn, for an ordering comparison between a
+// Unix-seconds quantity (derived from a .Unix() call) and a time.Duration that was
+// converted to a plain integer without dividing by a unit: nanoseconds against seconds.
+func unitMismatch(P *Program, fn *ssa.Function) string {
+	decl, ok := fn.Syntax().(*ast.FuncDecl)
+	if !ok || decl.Body == nil {
+		return ""
+	}
+	var info *types.Info
+	for _, pk := range P.All {
+		if pk.Types == fn.Pkg.Pkg {
+			info = pk.TypesInfo
+		}
+	}
+	if info == nil {
+		return ""
+	}
+	isDuration := func(t types.Type) bool {
+		n, ok := t.(*types.Named)
+		return ok && n.Obj().Pkg() != nil && n.Obj().Pkg().Path() == "time" && n.Obj().Name() == "Duration"
+	}
+	hasUnixCall := func(e ast.Expr) bool {
+		found := false
+		ast.Inspect(e, func(n ast.Node) bool {
+			if call, ok := n.(*ast.CallExpr); ok {
+				if sel, ok := call.Fun.(*ast.SelectorExpr); ok && sel.Sel.Name == "Unix" && len(call.Args) == 0 {
+					found = true
+				}
+			}
+			return true
+		})
+		return found
+	}
+	secs := map[types.Object]bool{}
+	ast.Inspect(decl.Body, func(n ast.Node) bool {
+		if as, ok := n.(*ast.AssignStmt); ok && len(as.Lhs) == len(as.Rhs) {
+			for i, r := range as.Rhs {
+				if hasUnixCall(r) {
+					if id, ok := as.Lhs[i].(*ast.Ident); ok {
+						if o := info.ObjectOf(id); o != nil {
+							secs[o] = true
+						}
+					}
+				}
+			}
+		}
+		return true
+	})
+	isSeconds := func(e ast.Expr) bool {
+		if hasUnixCall(e) {
+			return true
+		}
+		found := false
+		ast.Inspect(e, func(n ast.Node) bool {
+			if id, ok := n.(*ast.Ident); ok && secs[info.ObjectOf(id)] {
+				found = true
+			}
+			return true
+		})
+		return found
+	}
+	rawDuration := func(e ast.Expr) bool {
+		found := false
+		ast.Inspect(e, func(n ast.Node) bool {
+			call, ok := n.(*ast.CallExpr)
+			if !ok || len(call.Args) != 1 {
+				return true
+			}
+			tv, ok := info.Types[call.Fun]
+			if !ok || !tv.IsType() {
+				return true
+			}
+			if b, ok := tv.Type.Underlying().(*types.Basic); !ok || b.Info()&types.IsInteger == 0 || isDuration(tv.Type) {
+				return true
+			}
+			at := info.TypeOf(call.Args[0])
+			if at == nil || !isDuration(at) {
+				return true
+			}
+			if be, ok := ast.Unparen(call.Args[0]).(*ast.BinaryExpr); ok && be.Op == token.QUO {
+				return true // d / time.Second: a count of units
+			}
+			found = true
+			return true
+		})
+		return found
+	}
+	res := ""
+	ast.Inspect(decl.Body, func(n ast.Node) bool {
+		be, ok := n.(*ast.BinaryExpr)
+		if !ok || res != "" {
+			return true
+		}
+		switch be.Op {
+		case token.LSS, token.LEQ, token.GTR, token.GEQ:
+			if (isSeconds(be.X) && rawDuration(be.Y)) || (isSeconds(be.Y) && rawDuration(be.X)) {
+				res = P.Pos(be.Pos())
+			}
+		}
+		return true
+	})
+	return res
 }
